@@ -323,3 +323,66 @@ def eval_test(expr, env):
 
 
 _NO = object()
+
+
+def bounded_loop(fi, w, g):
+    """Termination argument for a while loop.  Returns (ok, why).
+    Accepted shapes:
+      (a) the test has a conjunct `ctr < LIM`/`ctr <= LIM`;
+      (b) the body contains `if ctr > LIM: <terminating statement>`
+          on every path through the body;
+    in both cases `ctr += positive constant` lies on every path through the
+    body, ctr is never otherwise assigned inside the loop, and LIM is a
+    constant, a parameter or a local with a single constant definition."""
+    from . import dataflow
+    tn = g.node_of(w)
+    body_first = [s for s in tn.succ if dataflow._in_body(s, w)]
+    cands = []
+    conj = w.test.values if isinstance(w.test, ast.BoolOp) and isinstance(
+        w.test.op, ast.And) else [w.test]
+    for c in conj:
+        cp = compare_parts(c)
+        if cp and cp[1] in (ast.Lt, ast.LtE) and isinstance(cp[0], ast.Name):
+            cands.append((cp[0].id, cp[2], None))
+    for st in walk_no_nested(w):
+        if isinstance(st, ast.If) and st is not w:
+            cp = compare_parts(st.test)
+            if cp and cp[1] in (ast.Gt, ast.GtE) and isinstance(
+                    cp[0], ast.Name):
+                n = g.node_of(st)
+                # the true branch terminates
+                tb = [s for s in n.succ if dataflow._branch_of(n, s) is True]
+                if tb and all(g.exit.id not in g.reachable_from(b) and
+                              tn.id not in g.reachable_from(b) for b in tb):
+                    cands.append((cp[0].id, cp[2], n))
+    for ctr, lim, guard in cands:
+        incs = [g.node_of(st) for st in walk_no_nested(w)
+                if isinstance(st, ast.AugAssign) and src(st.target) == ctr
+                and isinstance(st.op, ast.Add)
+                and isinstance(const(st.value), (int, float))
+                and const(st.value) > 0]
+        if not incs:
+            continue
+        if any(not (b in incs) and g.path_exists(b, tn, avoid=incs)
+               for b in body_first):
+            continue
+        if guard is not None and any(
+                not (b is guard) and g.path_exists(b, tn, avoid=[guard])
+                for b in body_first):
+            continue
+        resets = [st for st in walk_no_nested(w) if isinstance(st, ast.Assign)
+                  and any(src(t) == ctr for t in st.targets)]
+        if resets:
+            continue
+        limv = const(lim)
+        if limv is None and isinstance(lim, ast.Name):
+            d = single_def(fi.node, lim.id)
+            if d is not None and const(d) is not None:
+                limv = const(d)
+            elif lim.id in fi.params and not assigns_of(fi.node, lim.id):
+                limv = 'param:' + lim.id
+        if limv is None:
+            continue
+        return True, 'counter %s, limit %s%s' % (
+            ctr, limv, ', guarded exit' if guard is not None else '')
+    return False, 'no counter with an increment on every path and a limit'
